@@ -315,7 +315,7 @@ func runC12(c *mon.Ctx) {
 		}
 	}
 	// stage random decode
-	n := c.Pick(60000, 3000000)
+	n := c.Pick(300000, 4000000)
 	for i := int64(0); i < n; i++ {
 		if !c.Mine("random", i) {
 			continue
@@ -334,7 +334,7 @@ func runC12(c *mon.Ctx) {
 		}
 	}
 	// stage encode: WriteData vs reference encoding
-	ne := c.Pick(30000, 1500000)
+	ne := c.Pick(120000, 1500000)
 	for i := int64(0); i < ne; i++ {
 		if !c.Mine("encode", i) {
 			continue
@@ -383,6 +383,10 @@ func checkPESEncode(c *mon.Ctx, stage string, idx int64, r *rand.Rand, flags, ex
 		h.OptionalHeader = gen.OptionalHeader(r, flags, ext, true)
 	} else {
 		h.StreamID = []uint8{0xBE, 0xBF}[r.IntN(2)]
+		if r.IntN(2) == 0 {
+			// an application may fill the same optional header for all its streams: these stream ids carry none, it is ignored
+			h.OptionalHeader = gen.OptionalHeader(r, flags, ext, true)
+		}
 	}
 	var n int
 	switch r.IntN(6) {
@@ -401,6 +405,9 @@ func checkPESEncode(c *mon.Ctx, stage string, idx int64, r *rand.Rand, flags, ex
 	}
 	data := gen.Bytes(r, n)
 	model := mon.Clone(h)
+	if gen.IsNoHeaderID(model.StreamID) {
+		model.OptionalHeader = nil
+	}
 	enc := refts.PESEnc{LengthZero: h.StreamID == 0xE0 || h.StreamID == 0xFD}
 	want, err := refts.EncodePES(model, data, enc, nil)
 	if err != nil {
